@@ -10,6 +10,8 @@ STABLE = ("strings used in key derivation / USERNAME / USERHASH are drawn from a
           "alphabet (ASCII printable, Latin-1 letters, CJK, Cyrillic, emoji) on which OpaqueString "
           "processing is the identity, so the reference does not re-implement PRECIS")
 
+SIMRULE = ("seeded scheduler over a virtual clock drives the real StunClient: application sends, server answers built by the reference codec (valid, wrongly authenticated, 401/438 challenges, fingerprint faults), loss, duplication (immediate and long after), reordering, delay, timer calls that are exact / early / late by 1 ns..beyond the deadline / spurious, idle jumps, hostile probes (unknown id, request class, garbage, mutated response, indication with an outstanding id, finished id), then a drain phase following the controller contract and post-mortem probes (two valid responses re-injected for every finished transaction, timer call one hour later). Every call is logged with result, pulled events and the hook snapshot before/after; monitors run online. ")
+
 PROPS = {
     "C01": {
         "title": "Encode then decode returns the same message",
@@ -142,5 +144,85 @@ PROPS = {
         "assumptions": [],
         "min_counters": {"chunkings": 100000, "outcome.complete": 50, "outcome.invalid-header": 10,
                          "outcome.small-buffer": 50},
+    },
+    "C05": {
+        "title": "Each request gets at most one final outcome and then falls silent",
+        "profiles": ["dev"],
+        "rule": SIMRULE + ("C05 oracle: per-id automaton unknown -> awaiting -> final over the event log (ids are unique, so "
+                 "the history is unambiguous): a second final event, any packet/timer/event naming a finished, unknown or "
+                 "indication id, a delivery for an id not awaiting, and (hook) a finished id still in the transaction table or "
+                 "the timer heap are violations. Non-trivial = history with >=1 finished request; distinct = hash of the "
+                 "history shape (operations, results, event kinds)."),
+        "assumptions": ["transaction ids drawn by the client from the OS RNG are unique (collision ignored)"],
+        "min_counters": {"requests.finished": 2000, "probe.post-mortem-scheduled": 2000, "final.delivered": 300,
+                         "final.timed-out": 300, "final.retry": 20, "final.protection-violated": 20},
+    },
+    "C06": {
+        "title": "Requests are retransmitted on the RFC 8489 schedule and fail at the deadline",
+        "profiles": ["dev"],
+        "rule": SIMRULE + ("C06 oracle: closed-form schedule from the statement: for a request first sent at t0 with the RTO in "
+                 "force (hook, cross-checked against the first notification) the candidate expiries are t0+(2^k-1)RTO, k<Rc, "
+                 "and D = last slot + Rm*RTO (reliable: t0+timeout); at on_timeout(now) a request with expiry E<=now must fail "
+                 "iff no candidate > now remains, else be retransmitted exactly once byte-identically and get E' = first "
+                 "candidate > now; requests with E>now are untouched; <= Rc transmissions; exact integer-nanosecond "
+                 "comparison of every pending expiry (hook) and notification. Plus the default schedule 500..39500 ms. "
+                 "Configs: RTO 1 ms-3 s incl. learned values, Rm 1-32, Rc 1-10. Non-trivial = history with a retransmission "
+                 "or a final outcome."),
+        "assumptions": [],
+        "min_counters": {"c06.retransmissions": 3000, "c06.deadline-failures": 500, "c06.late-call-skipped-slots": 100,
+                         "c06.default-schedule-runs": 16, "c06.requests-with-learned-rto": 50},
+    },
+    "C11": {
+        "title": "Timer notifications are accurate and sufficient for every request to finish",
+        "profiles": ["dev"],
+        "rule": SIMRULE + ("C11 oracle: after every send_request and on_timeout: no request awaiting => no notification; "
+                 "otherwise exactly one, naming an awaiting request with minimal pending expiry (C06 model) and duration = "
+                 "max(0, E_min - now) exactly; (hook) one heap entry per awaiting request. Bounded liveness: a controller "
+                 "that arms one timer per latest notification and calls on_timeout when it fires (arbitrarily late) reaches "
+                 "quiescence (nothing in flight, no timer armed) with every request final; each request fails at the first "
+                 "controller call at/after its deadline. Non-trivial = >=2 requests in the history."),
+        "assumptions": ["'eventually' is restated as bounded progress: finite histories, <= 64+16*requests timer calls in the drain phase"],
+        "min_counters": {"c11.notifications-checked": 10000, "c11.quiescence-points": 1000},
+    },
+    "C12": {
+        "title": "The outstanding-request limit counts exactly the unfinished requests",
+        "profiles": ["dev"],
+        "rule": SIMRULE + ("C12 oracle: count = requests sent and not final (C05 automaton, from events only); send_request must "
+                 "return MaxOutstandingRequestsReached iff count == limit; a refusal leaves events() empty and the hook "
+                 "snapshot identical; indications change nothing; hook cross-check table size == count after every step. "
+                 "Limits 0,1,2,3,4,10 in rotation; walks of 300-800 operations hammering the limit. Non-trivial = walk with "
+                 ">=1 request (or limit 0)."),
+        "assumptions": [],
+        "min_counters": {"requests.refused-at-limit": 1000, "requests.finished": 2000, "final.timed-out": 200,
+                         "final.delivered": 200, "indications.sent": 200},
+    },
+    "C15": {
+        "title": "RTO estimate follows RFC 6298 with Karn's rule and goes stale after 10 minutes",
+        "profiles": ["dev"],
+        "rule": SIMRULE + ("C15 oracle: double-precision RFC 6298 reference (first sample SRTT=R, RTTVAR=R/2; then RTTVAR before "
+                 "SRTT; RTO = SRTT + max(G, 4*RTTVAR); alpha 1/8, beta 1/4), fed with R of every request completed by a "
+                 "response without retransmission, reset when the gap between consecutive request instants exceeds 600 s; "
+                 "compared with the RTO in force for every new request (hook) within 1e-5 relative + 1 us and with the first "
+                 "notified interval (boundary). Histories of 400-1200 operations, delays 1 us..beyond the first "
+                 "retransmission, idle gaps 599.99-600.01 s and 601-700 s, RTO 0.1-3 s, granularity 1 us-50 ms. Histories in "
+                 "which a zero-length response time occurs are excluded from comparison from that point. Non-trivial = >=5 "
+                 "requests."),
+        "assumptions": ["tolerance as stated by the property (implementation computes in single precision)"],
+        "min_counters": {"c15.rto-compared": 5000, "c15.samples": 3000, "c15.stale-resets": 50},
+    },
+    "C17": {
+        "title": "A rejected buffer changes nothing",
+        "profiles": ["dev"],
+        "rule": SIMRULE + ("C17 oracle A (hook): for every on_buffer_recv returning Err the snapshot (outstanding ids with their "
+                 "retransmission state, pending timeouts, RTT estimate, last-request instant, credential state, capacity) is "
+                 "identical before/after and events() is empty; the protection-violated marker may gain exactly the id of "
+                 "this buffer when it is a response for an outstanding request on unreliable transport with a mechanism "
+                 "configured. Oracle B (boundary only): twin runs of the same seeded schedule without and with rejected "
+                 "buffers (garbage, unknown-id responses, request class, corrupted unknown-id errors) inserted after random "
+                 "steps; every shared step must return the same result and events. Probe-heavy profile. Non-trivial = "
+                 "every history."),
+        "assumptions": [],
+        "min_counters": {"c17.snapshots-compared": 20000, "c17.marker-set": 20, "c17.twin-histories": 500,
+                         "c17.twin-inserted-rejections": 5000},
     },
 }
